@@ -94,7 +94,7 @@ def is_signal(exc):
 class Record:
     """What one simulated run produced."""
     __slots__ = ("case", "trace", "acts", "sched", "outcome", "kernel_violations", "fired",
-                 "final_status", "monitor_violations", "notes",
+                 "final_status", "monitor_violations", "notes", "fault_log",
                  "unraisable", "ticks", "n_act", "end_time", "start_time", "time_steps",
                  "world", "raised")
 
@@ -128,6 +128,8 @@ class World:
         self.monitor_violations = []   # (rule, message) found by property monitors
         self.notes = {}            # free-form data collected by property monitors
         self.faulted = {}      # actor -> list of (tick, kind)
+        self.fault_log = []    # dicts: tick, time, kind, victim, token, outcome, status
+        self.obj_ids = {}      # id(object) -> small serial (objects pinned by their owners)
 
     # ---- logging ---------------------------------------------------------------------
     def log(self, actor, ev, *data):
@@ -154,6 +156,13 @@ class World:
         if isinstance(exc, KernelInterrupt):
             return (name, "interrupt")
         return (name,)
+
+    def oid(self, obj):
+        """Small serial for an object that is kept alive by its owner (never by us)."""
+        key = id(obj)
+        if key not in self.obj_ids:
+            self.obj_ids[key] = len(self.obj_ids) + 1
+        return self.obj_ids[key]
 
     # ---- resources -------------------------------------------------------------------
     def make_resources(self):
@@ -254,8 +263,12 @@ class World:
                 if task is None:
                     return "no-victim"
                 done = bool(task.done)
+                status = task.status.name
                 task.cancel(*fault.get("token", ("fault",)))
                 self.faulted.setdefault(fault["victim"], []).append((self.seam.tick, kind))
+                self.fault_log.append({"tick": self.seam.tick, "time": time.now, "kind": kind,
+                                       "victim": fault["victim"], "status": status,
+                                       "token": tuple(fault.get("token", ("fault",)))})
                 return "late" if done else "sent"
             if kind == "set_flag":
                 flag = self.res.get(fault["flag"])
@@ -266,6 +279,9 @@ class World:
                 if fault.get("victim"):
                     self.faulted.setdefault(fault["victim"], []).append(
                         (self.seam.tick, fault.get("as", kind)))
+                    self.fault_log.append({"tick": self.seam.tick, "time": time.now,
+                                           "kind": fault.get("as", kind),
+                                           "victim": fault["victim"]})
                 return "sent"
             if kind == "gc":
                 gc.collect()
@@ -416,7 +432,7 @@ class World:
     async def op_try(self, a, op):
         try:
             await self.run_ops(a, op["body"])
-        except Exception as err:
+        except (Exception, Concurrent) as err:
             self.log(a, "caught", self.meta(err))
             await self.run_ops(a, op.get("handler", ()))
 
@@ -652,7 +668,8 @@ class World:
             if is_signal(err):
                 self.log(a, "await_task!", op["task"], self.meta(err))
                 raise
-            self.log(a, "await_task.exc", op["task"], self.meta(err), id(err))
+            self.log(a, "await_task.exc", op["task"], self.meta(err), self.oid(err),
+                     self.task_name.get(id(getattr(err, "subject", None))))
             if op.get("reraise"):
                 raise
         else:
@@ -827,6 +844,7 @@ def execute(case, record_kernel=True, setup=None):
     record.end_time = seam.max_time if seam.max_time > -math.inf else start
     record.world = world
     record.unraisable = unraisable
+    record.fault_log = world.fault_log
     record.monitor_violations = world.monitor_violations
     record.notes = world.notes
     record.final_status = {}
